@@ -4,3 +4,4 @@ pub mod c13;
 pub mod c09;
 pub mod c07;
 pub mod c02;
+pub mod c10;
